@@ -75,12 +75,20 @@ def solver_unit(unit):
                     if (size, sd) not in draws:
                         draws.append((size, sd))
                 for size, sd in draws[:6]:
-                    idx = (j,) + (0,) * (len(size) - 1)
+                    per_row = len(size) >= 2 and size[0] == B
+                    idx = ((j,) if per_row else (0,)) + (0,) * (len(size) - 1)
                     with seams.NoiseSeam('table', perturb=(sd, idx, 0.5, size)):
                         bm1 = zoo.make_bm(prog, B, levy, unit['entropy'], t1=0.5)
                         r1 = torchsde.sdeint(prog, y0, ts, bm=bm1, method=method, dt=0.125, options=dict(opts))
                     out.count('executions')
-                    if not torch.equal(r1[:, i], r0[:, i]):
+                    rows_moved = [r for r in range(B) if not torch.equal(r1[:, r], r0[:, r])]
+                    if len(rows_moved) > 1:
+                        out.violation(dict(kind='noise_crosstalk', cell=zoo.cell_name(cell)),
+                                      f"{label0}: one element of a noise draw of shape {size} moves rows {rows_moved} "
+                                      f"of the solution (rows must be independent paths)",
+                                      dict(engine='C-c20', perturbed=list(idx), draw_shape=list(size),
+                                           entropy=unit['entropy'], **label0))
+                    elif not torch.equal(r1[:, i], r0[:, i]) and per_row:
                         out.violation(dict(kind='noise_crosstalk', cell=zoo.cell_name(cell)),
                                       f"{label0}: row {i} of the solution changed when noise element {idx} of draw "
                                       f"(size {size}) changed", dict(engine='C-c20', row=i, perturbed=list(idx),
@@ -127,6 +135,7 @@ def element_unit(unit):
     nb = len(size)
     for sz, sd in draws:
         is_area = len(sz) == nb + 1
+        shaped = tuple(sz) == tuple(size) or (is_area and tuple(sz) == tuple(size) + tuple(size[-1:]))
         for idx in itertools.product(*[range(n) for n in sz]):
             pert, _ = runall((sd, idx, 0.75, sz))
             out.count('executions')
@@ -139,6 +148,19 @@ def element_unit(unit):
                     if not bool(ch.any()):
                         continue
                     moved = True
+                    # rows (all batch dimensions) are independent paths: one noise element moves at most one of them
+                    if nb >= 1:
+                        nbatch = nb - 1 if nb >= 2 else 1
+                        flat = ch.reshape(ch.shape[:nbatch] + (-1,)).any(dim=-1)
+                        if int(flat.sum()) > 1:
+                            out.violation(dict(kind='row_crosstalk', levy=levy, ndim=nb, moved=name),
+                                          f"size={size} levy={levy}: perturbing one element {idx} of a noise draw of "
+                                          f"shape {sz} moved {int(flat.sum())} batch rows of {name}",
+                                          dict(engine='A-c20', cfg=cfg, entropy=unit['entropy'],
+                                               draw=[list(sz), sd], element=list(idx)))
+                            return out.pack()
+                    if not shaped:
+                        continue
                     allowed = torch.zeros_like(ch)
                     if nb == 0:
                         allowed[...] = True
